@@ -27,7 +27,9 @@ def dt_from_text(text, rng, kind=None, over_precise=False, foreign_meta=False):
         # the library's own timestamp class, carrying precision metadata from wherever it was taken (another object's property)
         import stix2.utils as U
         p, c = rng.choice([("any", "exact"), ("millisecond", "min"), ("millisecond", "exact"), ("second", "min"), ("second", "exact")])
-        return U.STIXdatetime(naive.replace(tzinfo=dt.timezone.utc), precision=U.Precision[p.upper()],
+        import pytz
+        # (library-made timestamps carry pytz.utc; some carry datetime.timezone.utc when the caller supplied it)
+        return U.STIXdatetime(naive.replace(tzinfo=rng.choice([pytz.utc, pytz.utc, dt.timezone.utc])), precision=U.Precision[p.upper()],
                               precision_constraint=U.PrecisionConstraint[c.upper()])
     r = rng.random()
     if r < 0.3:
